@@ -68,6 +68,10 @@ def respell(node, how):
 
 def check_case(case, ctx):
     tree, tseed = case['tree'], case.get('tseed', 0)
+    if case.get('ref'):
+        tree = dsl.with_reference(tree, case['ref']) or tree
+        if tree is not case['tree']:
+            ctx.count('with_backreference_or_conditional')
     variants = [('drawn', tree)] + [(h, respell(tree, h)) for h in ('class', 'method', 'alt')]
     first = None
     for how, t in variants:
@@ -76,7 +80,7 @@ def check_case(case, ctx):
             first = o
         ctx.count(f'outcome:{o.kind.split(":")[0]}')
         if o.kind in OWNED:
-            c = {'tree': t, 'tseed': tseed, 'xt': case.get('xt', [])}
+            c = {'tree': t, 'tseed': tseed, 'xt': case.get('xt', []), 'ref': None}
             fid = findings.classify(ID, o.kind, c)
             if fid:
                 ctx.known(fid)
@@ -104,6 +108,7 @@ def strategy(spec, ctx):
     return st.fixed_dictionaries({
         'tree': dsl.tree_strategy(feats, max_leaves=spec.get('max_leaves', 6)),
         'tseed': st.integers(0, 2 ** 20),
+        'ref': dsl.refspec_strategy(feats),
     })
 
 
